@@ -221,6 +221,7 @@ void inst(){
     d = C.astdump(src, src[:-4] + ".json", ["^boost::gil::default_color_converter_impl::"], extra=[])
     transfer_pairs(rep, d["functions"])
     matrix_pairs(rep, d["functions"])
+    clamp_subjects(rep, d["functions"])
     d["functions"] = [f for f in d["functions"] if f["name"].endswith("operator()")]
     rep.rule("S5 toolbox converters reach channels only through get_color/static_for_each (no at_c, semantic_at_c, dynamic_at_c, operator[])")
     POS = ("boost::gil::at_c", "boost::gil::semantic_at_c", "boost::gil::dynamic_at_c")
@@ -739,3 +740,47 @@ def gamut(rep, wd):
         else:
             rep.incon("S7-gamut", key, bad[0].detail)
     rep.floor("obligations:S7", 6)
+
+
+def clamp_subjects(rep, fns):
+    """S11: a clamp only helps if it sees the value it is meant to bound. clamp<T>(v, lo, hi) with an explicit narrow T converts v to T first: the
+    out-of-range values the clamp exists for have already wrapped (-1 -> 255, 256 -> 0) and lie inside [lo, hi]."""
+    from .ast.rules import _TYRANGE, _cty, type_range
+    rep.rule("S11 in every instantiated colour converter no argument of a clamp (detail::clamp, std::clamp, a min/max pair) is narrowed on the way in: an integral "
+             "argument is not converted to a type whose range is smaller than the interval of the argument expression (from the types of its leaves). "
+             "Witness: the extreme of the interval that the narrow type cannot hold")
+    seen = set()
+    n = 0
+    for f in fns:
+        if f.get("body") is None or "color_convert" not in f["name"] and "default_color_converter_impl" not in f["name"] and "::convert" not in f["name"]:
+            continue
+        for c, _ in R.find(f["body"], lambda x: x.get("k") == "Call" and re.search(r"(^|::)clamp$", (x.get("callee") or {}).get("name", ""))):
+            n += 1
+            key = "S11:%s:%s" % (re.sub(r"boost::gil::(detail::)?", "", f.get("full", f["name"]).split("<")[0]), re.sub(r"<.*", "", re.sub(r"boost::gil::", "", f.get("cls") or ""))[:60])
+            cls = re.sub(r"boost::gil::", "", f.get("cls") or f["name"])
+            cs = "/".join(re.findall(r"(ycbcr_\d+__t|rgb_t|rgba_t|gray_t|cmyk_t|hsl_t|hsv_t|lab_t|xyz_t|gray_alpha_t)", cls)[:2]) or cls[:50]
+            key = "S11:%s:%s" % (cs, f["name"].split("::")[-1])
+            bad = []
+            for a in c.get("args", []):
+                x = a
+                while isinstance(x, dict) and x.get("k") in ("Paren",):
+                    x = x["e"]
+                if not (isinstance(x, dict) and x.get("k") in ("ImplicitCast", "ExplicitCast") and x.get("from_c") is not None) or "const" in x:
+                    continue
+                frm, to = _cty(x["from_c"]), _cty(x["to_c"])
+                if frm not in _TYRANGE or to not in _TYRANGE:
+                    continue
+                r = type_range(x["e"]) or _TYRANGE[frm]
+                lim = _TYRANGE[to]
+                if r[0] < lim[0] or r[1] > lim[1]:
+                    w = r[0] if r[0] < lim[0] else r[1]
+                    bad.append({"argument": R.key(x["e"])[:90], "converted from": frm, "to": to, "interval of the argument": list(r), "line": x.get("line")})
+            if key in seen and not bad:
+                continue
+            seen.add(key)
+            rep.count("obligations:S11")
+            if bad:
+                rep.violation("S11-clamp-subject", key, R.fn_where(f), {"narrowed arguments": bad[:3], "example": "ycbcr_601 (16,128,100) -> rgb8: red = (298*0 + 409*(-28) + 128) >> 8 = -45, narrowed to unsigned char 211 before the clamp: red 211 instead of 0"})
+            else:
+                rep.ok("S11-clamp-subject", key, "%d arguments, none narrowed" % len(c.get("args", [])))
+    rep.floor("obligations:S11", 1)
